@@ -459,6 +459,38 @@ def np_arange(ex, args, kw, st):
     return SSeq(num_term(n), lambda i: num_term(i), 'int')
 
 
+def np_argsort(ex, args, kw, st):
+    """np.argsort of a finite 1-D sequence: a permutation of range(n) that lists the values in
+    non-decreasing order (which permutation among ties is unspecified)."""
+    f = args[0]
+    if isinstance(f, SArr) and f.ndim == 1:
+        fs = snap(f)
+        if snap_finite(f) is not None:
+            raise Unsupported('argsort of a sequence that may contain NaN')
+        fn, n = (lambda i: fs((i,))), num_term(f.shape[0])
+    elif isinstance(f, SSeq):
+        fn, n = f.fn, num_term(f.length)
+    else:
+        raise Unsupported('np.argsort of this value')
+    uid = next(_bv)
+    perm = z3.Function(f'argsort!{uid}', z3.IntSort(), z3.IntSort())
+    inv = z3.Function(f'argsort_inv!{uid}', z3.IntSort(), z3.IntSort())
+    k, m = z3.Int(f'bv!as{uid}k'), z3.Int(f'bv!as{uid}m')
+    rng = lambda x: z3.And(x >= 0, x < n)  # noqa: E731
+    st.fact(z3.ForAll([k], z3.Implies(rng(k), rng(perm(k)))))
+    st.fact(z3.ForAll([k, m], z3.Implies(z3.And(rng(k), rng(m), k != m), perm(k) != perm(m))))
+    st.fact(z3.ForAll([k, m], z3.Implies(z3.And(rng(k), rng(m), k < m),
+                                         real(fn(perm(k))) <= real(fn(perm(m))))))
+    surj = z3.Implies(rng(k), z3.And(rng(inv(k)), perm(inv(k)) == k))
+    trig = real(fn(k))
+    if z3.is_app(trig) and trig.decl().kind() == z3.Z3_OP_UNINTERPRETED:
+        # every row whose value is mentioned is some perm(q): instantiate on f(k)
+        st.fact(z3.ForAll([k], surj, patterns=[trig]))
+    else:
+        st.fact(z3.ForAll([k], surj))
+    return SSeq(n, lambda i: perm(num_term(i)), 'int')
+
+
 def np_atleast_2d(ex, args, kw, st):
     v = args[0]
     if isinstance(v, SArr) and v.ndim == 2:
@@ -854,7 +886,7 @@ TABLE = {
     'np.count_nonzero': np_count_nonzero, 'np.sum': np_sum, 'np.nansum': np_sum, 'np.any': np_any, 'np.all': np_all,
     'np.diff': np_diff, 'np.argmax': np_argmax_first_true,
     'PchipInterpolator': p_interp('PchipInterpolator'), 'np.ndim': np_ndim,
-    'forall_real': cl_forall_real, 'np.arange': np_arange, 'np.broadcast_to': np_broadcast_to, 'np.atleast_2d': np_atleast_2d, 'np.clip': np_clip, 'spline': cl_uf('spline'),
+    'forall_real': cl_forall_real, 'np.argsort': np_argsort, 'np.arange': np_arange, 'np.broadcast_to': np_broadcast_to, 'np.atleast_2d': np_atleast_2d, 'np.clip': np_clip, 'spline': cl_uf('spline'),
     'np.deg2rad': p_uf1('deg2rad'), 'deg2rad_': cl_uf('deg2rad'), 'exp_': cl_uf('exp'),
     'erf_': cl_uf('erf'), 'sin_': cl_uf('sin'), 'cos_': cl_uf('cos'), 'sqrt_': cl_uf('sqrt'), 'asin_': cl_uf('asin'),
     'pi_': None,
